@@ -1,7 +1,20 @@
 import Robust.Api.Model
+import Robust.Irc.Proofs.FrmCheck
 import Robust.Gen.Exprs
 /-!
 # C17 — only dead sessions are reported dead, only idle ones expire
+
+Part 1 (decision level): `getSession`, the expiry sweep.
+
+Part 2 (end of a session, over the whole state machine): after a DeleteSession entry (expiry,
+DELETE), a QUIT, a KILL by an IRC operator or a client entry from a GLINE-banned address the
+session is not stored any more, its nickname is free and no channel lists it
+(`C17_delete_entry_ends_session`, `C17_quit_…`, `C17_kill_…`, `C17_banned_…`); what each entry type
+does to `lastProcessed` (`C17_lastProcessed_after`); `lastProcessed` is **not** monotone
+(`C17_lastProcessed_not_monotone`: a client entry sets it to the numeric id of the *session*), the
+true variant is the bound `lastProcessed.id ≤ id of the last applied entry`
+(`C17_lastProcessed_bounded_partial`), which is what the "no such session" answer needs
+(`C17_nosuch_is_final`).  Helpers: `Robust/Irc/Proofs/Frm*.lean`.
 -/
 namespace Robust.Props.C17
 open Robust Robust.Irc Robust.Api
@@ -67,5 +80,172 @@ theorem C17_wiring :
     Gen.Exprs.fact "expire.timeout" = "time.Duration(i.Config.SessionExpiration)" ∧
     Gen.Exprs.fact "expire.msg.Type" = "robust.DeleteSession" ∧
     Gen.Exprs.fact "expire.msg.Session" = "id" := by decide
+
+/-! ## Part 2 — end of a session -/
+
+/-- **DeleteSession entry** (what the expiry sweep and the DELETE request propose) for a stored
+client session: afterwards the session is not stored, its nickname is free, and no channel's member
+list contains that nickname. -/
+theorem C17_delete_entry_ends_session {st st' : St} {e : Entry} {out : List Out} {s : Session} (h : GInv st)
+    (he : EntryOk st e) (ht : e.type = 1) (hs : AMap.get st.sessions e.session = some s)
+    (hsv : s.server = false) (hr : applyEntry st e = .ok (st', out)) :
+    AMap.get st'.sessions e.session = none ∧ AMap.get st'.nicks (nickToLower s.nick) = none ∧
+    ∀ lc ch, AMap.get st'.channels lc = some ch → nickToLower s.nick ∉ AMap.keys ch.nicks :=
+  let g := applyEntry_delete_ends h he ht hs hsv hr
+  ⟨g.notStored, g.nickFree, g.offChans⟩
+
+/-- **QUIT** typed by the client: the same. -/
+theorem C17_quit_entry_ends_session {st st' : St} {e : Entry} {out : List Out} {s : Session} {m : IrcMsg}
+    (h : GInv st) (he : EntryOk st e) (ht : e.type = 2) (hs : AMap.get st.sessions e.session = some s)
+    (hsv : s.server = false) (hm : parseMessage e.data = some m) (hq : toUpper m.command = "QUIT")
+    (hr : applyEntry st e = .ok (st', out)) :
+    AMap.get st'.sessions e.session = none ∧ AMap.get st'.nicks (nickToLower s.nick) = none ∧
+    ∀ lc ch, AMap.get st'.channels lc = some ch → nickToLower s.nick ∉ AMap.keys ch.nicks :=
+  let g := applyEntry_quit_ends h he ht hs hsv hm hq hr
+  ⟨g.notStored, g.nickFree, g.offChans⟩
+
+/-- **KILL** by a registered IRC operator (whose own address is not banned) of the session `tid`
+indexed under the first parameter: the killed session is not stored any more (the operator's
+`MaybeDeleteSession` purges every flagged session), its nickname is free, it is on no channel. -/
+theorem C17_kill_entry_ends_session {st st' : St} {e : Entry} {out : List Out} {s : Session} {m : IrcMsg}
+    {p0 : String} {tid : Id} (h : GInv st) (he : EntryOk st e) (ht : e.type = 2)
+    (hs : AMap.get st.sessions e.session = some s) (hsv : s.server = false) (hli : s.loggedIn = true)
+    (hop : s.operator = true) (hnb : AMap.get st.config.banned e.remoteAddr = none)
+    (hm : parseMessage e.data = some m) (hq : toUpper m.command = "KILL") (hlen : 2 ≤ m.params.length)
+    (hp0 : param m 0 = .ok p0) (htid : AMap.get st.nicks (nickToLower p0) = some tid)
+    (hr : applyEntry st e = .ok (st', out)) :
+    AMap.get st'.sessions tid = none ∧ AMap.get st'.nicks (nickToLower p0) = none ∧
+    ∀ lc ch, AMap.get st'.channels lc = some ch → nickToLower p0 ∉ AMap.keys ch.nicks :=
+  let g := applyEntry_kill_ends h he ht hs hsv hli hop hnb hm hq hlen hp0 htid hr
+  ⟨g.notStored, g.nickFree, g.offChans⟩
+
+/-- **Ban.** A client entry (any line that parses) arriving from a new address that is GLINE-banned
+ends the session in the same way. -/
+theorem C17_banned_entry_ends_session {st st' : St} {e : Entry} {out : List Out} {s : Session} {m : IrcMsg}
+    {reason : String} (h : GInv st) (he : EntryOk st e) (ht : e.type = 2)
+    (hs : AMap.get st.sessions e.session = some s) (hm : parseMessage e.data = some m)
+    (hne : (e.remoteAddr != "" && e.remoteAddr != s.remoteAddr) = true)
+    (hb : AMap.get st.config.banned e.remoteAddr = some reason) (hre : reason ≠ "")
+    (hr : applyEntry st e = .ok (st', out)) :
+    AMap.get st'.sessions e.session = none ∧ AMap.get st'.nicks (nickToLower s.nick) = none ∧
+    ∀ lc ch, AMap.get st'.channels lc = some ch → nickToLower s.nick ∉ AMap.keys ch.nicks :=
+  let g := applyEntry_banned_ends h he ht hs hm hne hb hre hr
+  ⟨g.notStored, g.nickFree, g.offChans⟩
+
+/-- … and a session that is not stored receives nothing through a channel or nickname lookup:
+every recipient id computed by the send helpers is the id of a *stored* session
+(the nick index only points to stored sessions — `Inv.index`). -/
+theorem C17_gone_not_addressed {st : St} (h : GInv st) {σ : Id} (hσ : AMap.get st.sessions σ = none) :
+    ∀ x, AMap.get st.nicks x ≠ some σ := by
+  intro x hx
+  obtain ⟨s, hs, _⟩ := h.inv.index x σ hx
+  rw [hσ] at hs; cases hs
+
+/-! ## Part 2b — `lastProcessed` -/
+
+/-- What `applyEntry` does to `lastProcessed`: a DeleteSession entry of a stored session sets it to
+the entry's id; a client entry of a stored session sets it to the numeric id **of the session**
+(`SetLastProcessed(robust.Id{Id: msg.Session.Id})`, statemachine.go:111); every other entry
+(CreateSession, message of death, Config, entries of unknown sessions) leaves it alone. -/
+theorem C17_lastProcessed_after {st st' : St} {e : Entry} {out : List Out}
+    (hr : applyEntry st e = .ok (st', out)) :
+    st'.lastProcessed =
+      if e.type = 1 ∧ (AMap.get st.sessions e.session).isSome then ⟨e.id, 0⟩
+      else if e.type = 2 ∧ (AMap.get st.sessions e.session).isSome then ⟨e.session.id, 0⟩
+      else st.lastProcessed :=
+  applyEntry_lastProcessed hr
+
+/-- **True variant of monotonicity (partial).** Assumption on the history, stated explicitly: entry
+ids increase strictly (`IdsIncreasing n es`: the first id is above `n`, each next id above the
+previous one — raft indexes).  Then `lastProcessed.id`, and the numeric id of every stored session,
+never exceed the id of the entry applied last (`lastId n es`). -/
+theorem C17_lastProcessed_bounded_partial {st st' : St} {es : List Entry} {n : Nat} (hw : SessWf st)
+    (hwf : WfHistory st es) (hinc : IdsIncreasing n es)
+    (hb : st.lastProcessed.id ≤ n ∧ ∀ id s, AMap.get st.sessions id = some s → id.id ≤ n)
+    (hr : runEntries st es = .ok st') :
+    st'.lastProcessed.id ≤ lastId n es ∧ ∀ id s, AMap.get st'.sessions id = some s → id.id ≤ lastId n es :=
+  run_lpBound hw hwf hinc hb hr
+
+/-- one step of the above -/
+theorem C17_lastProcessed_bounded_step {st st' : St} {e : Entry} {out : List Out} {n : Nat} (hw : SessWf st)
+    (he : EntryOk st e) (hb : st.lastProcessed.id ≤ n ∧ ∀ id s, AMap.get st.sessions id = some s → id.id ≤ n)
+    (hn : n ≤ e.id) (hr : applyEntry st e = .ok (st', out)) :
+    st'.lastProcessed.id ≤ e.id ∧ ∀ id s, AMap.get st'.sessions id = some s → id.id ≤ e.id :=
+  applyEntry_lpBound hw he.1 hb hn hr
+
+/-- Consequence for the lookup: once a node that has applied a history with increasing ids answers
+"no such session" for `id`, no later entry (ids above the last applied one) can be the CreateSession
+entry of that id — the answer is final.  (This is the use `C17_cannot_reappear` makes of
+`lastProcessed`; its hypothesis `st.lastProcessed.id ≤ e.id` is discharged here.) -/
+theorem C17_nosuch_is_final {st st' : St} {es : List Entry} {n : Nat} (hw : SessWf st)
+    (hwf : WfHistory st es) (hinc : IdsIncreasing n es)
+    (hb : st.lastProcessed.id ≤ n ∧ ∀ id s, AMap.get st.sessions id = some s → id.id ≤ n)
+    (hr : runEntries st es = .ok st') (id : Id) (hno : getSession st' id = .error .noSuchSession)
+    (e : Entry) (hlater : lastId n es < e.id) (hcreate : e.type = 0) : (⟨e.id, 0⟩ : Id) ≠ ⟨id.id, 0⟩ := by
+  have hle := (C17_lastProcessed_bounded_partial hw hwf hinc hb hr).1
+  exact C17_cannot_reappear st' id hno e (by omega) hcreate
+
+/-! ### non-vacuity, and the counterexample to monotonicity -/
+
+def exAlice : Session :=
+  { id := ⟨1, 0⟩, nick := "alice", username := "al", loggedIn := true, channels := ["#c"], operator := true,
+    ircPrefix := ⟨"alice", "al", "robust/0x1"⟩ }
+def exBob : Session :=
+  { id := ⟨2, 0⟩, nick := "Bob", username := "bo", loggedIn := true, channels := ["#c"], remoteAddr := "10.0.0.2",
+    ircPrefix := ⟨"Bob", "bo", "robust/0x2"⟩ }
+def exChanC : Channel := { name := "#c", nicks := [("alice", { chanop := true }), ("bob", {})], modes := ['n', 't'] }
+/-- alice (IRC operator) and Bob on `#c`; entries up to id 9 have been applied -/
+def exSt : St :=
+  { sessions := [(⟨1, 0⟩, exAlice), (⟨2, 0⟩, exBob)]
+    nicks := [("alice", ⟨1, 0⟩), ("bob", ⟨2, 0⟩)]
+    channels := [("#c", exChanC)]
+    lastProcessed := ⟨9, 0⟩ }
+def mkE (type id : Nat) (session : Id) (data : String) : Entry :=
+  { type := type, id := id, session := session, data := data, unixNano := 0, cmid := id, rev := 0,
+    remoteAddr := "", cfg := none }
+
+theorem exSt_inv : GPInv exSt := ginv_of_ginvB (by decide)
+
+/-- the DeleteSession entry for Bob applies; afterwards Bob is not stored, "bob" is free, `#c` has only alice -/
+theorem C17_example_delete :
+    (applyEntry exSt (mkE 1 10 ⟨2, 0⟩ "expired")).isOk = true ∧
+    (let st' := resSt (applyEntry exSt (mkE 1 10 ⟨2, 0⟩ "expired"))
+     AMap.keys st'.sessions = [⟨1, 0⟩] ∧ AMap.keys st'.nicks = ["alice"] ∧
+     st'.channels.map (fun c => (c.1, AMap.keys c.2.nicks)) = [("#c", ["alice"])] ∧
+     st'.lastProcessed = ⟨10, 0⟩) :=
+  ⟨by decide +kernel, by decide +kernel⟩
+
+/-- `C17_delete_entry_ends_session` instantiated on the example (all hypotheses discharged) -/
+example : AMap.get (resSt (applyEntry exSt (mkE 1 10 ⟨2, 0⟩ "expired"))).nicks "bob" = none :=
+  (C17_delete_entry_ends_session (s := exBob) exSt_inv.ginv (entryOk_of_B (by decide)) rfl (by decide) rfl
+    (eq_ok_of_isOk C17_example_delete.1)).2.1
+
+/-- KILL by the operator alice: Bob is purged although the acting session is alice's -/
+theorem C17_example_kill :
+    (let st' := resSt (applyEntry exSt (mkE 2 10 ⟨1, 0⟩ "KILL bob :bye"))
+     AMap.keys st'.sessions = [⟨1, 0⟩] ∧ AMap.keys st'.nicks = ["alice"] ∧
+     st'.channels.map (fun c => (c.1, AMap.keys c.2.nicks)) = [("#c", ["alice"])]) := by decide +kernel
+
+/-- **Counterexample: `lastProcessed` is not monotone**, although entry ids increase (10 < 11):
+the DeleteSession entry 10 (of Bob) sets it to 10, the following client entry 11 of session 1
+(alice's `PING`) sets it back to 1 — the numeric id of the *session*. -/
+theorem C17_lastProcessed_not_monotone :
+    let es := [mkE 1 10 ⟨2, 0⟩ "expired", mkE 2 11 ⟨1, 0⟩ "PING x"]
+    (resSt (applyEntry exSt (mkE 1 10 ⟨2, 0⟩ "expired"))).lastProcessed = ⟨10, 0⟩ ∧
+    (runEntries exSt es).isOk = true ∧ (runSt (runEntries exSt es)).lastProcessed = ⟨1, 0⟩ ∧
+    IdsIncreasing 9 es ∧ WfHistory exSt es :=
+  ⟨by decide +kernel, by decide +kernel, by decide +kernel, idsIncreasing_of_B (by decide),
+   wf_of_B (by decide +kernel)⟩
+
+/-- … while the bound of `C17_lastProcessed_bounded_partial` holds on the same history -/
+example : (runSt (runEntries exSt [mkE 1 10 ⟨2, 0⟩ "expired", mkE 2 11 ⟨1, 0⟩ "PING x"])).lastProcessed.id ≤ 11 :=
+  (C17_lastProcessed_bounded_partial (n := 9) exSt_inv.sessWf C17_lastProcessed_not_monotone.2.2.2.2
+    C17_lastProcessed_not_monotone.2.2.2.1
+    ⟨by decide, by
+      intro id s hg
+      have hm := AMap.mem_of_get hg
+      have : ∀ p ∈ exSt.sessions, p.1.id ≤ 9 := by decide
+      exact this _ hm⟩
+    (run_eq_of_isOk C17_lastProcessed_not_monotone.2.1)).1
 
 end Robust.Props.C17
